@@ -180,6 +180,11 @@ theorem gen_failed_reload_restores_cache :
     ["dispose", "if(err){", "return", "}", "defer:if(err){", "defer:cache_set", "defer:}", "}", "else{"]
       <:+: Csvq.Gen.fxCacheLoad := by decide
 
+/-- … and what it puts back is the view the LOOKUP found, saved before the load overwrites the function's own `view`
+    (with `view` itself a reload that fails while the new contents are read would put back nothing: the table the
+    transaction had loaded would be gone and the next read would show the file of the moment) -/
+theorem gen_failed_reload_restores_saved_view : Csvq.Gen.restoredView = "saved_copy(view)" := by decide
+
 /-- a load that fails under the lock gives the lock back -/
 theorem gen_failed_locked_load_releases :
     ["load", "if(err){", "if{", "}", "if(forUpdate){", "close_handler(fileInfo.Handler)", "}", "return", "}"]
